@@ -35,10 +35,11 @@ func (c *MemoryCache) VerifPlant(k, ek, ev []byte, hasV, wlocked bool) (unlock f
 		e.v = nil
 	}
 	e.l.Unlock()
+	// publish first, lock afterwards: the backend's cost function may read the entry under its lock
+	c.backend.Set(string(k), e, time.Hour)
 	if wlocked {
 		e.l.Lock()
 	}
-	c.backend.Set(string(k), e, time.Hour)
 	return func() {
 		if wlocked {
 			e.l.Unlock()
